@@ -1,6 +1,7 @@
 package rules
 
 import (
+	"go/constant"
 	"go/token"
 	"go/types"
 
@@ -96,6 +97,10 @@ func asCmp(v ssa.Value, at ssa.Instruction, negate bool) (cmp, bool) {
 
 // falseAt: comparisons known to be FALSE when `at` executes (a dominating guard panicked / branched away otherwise).
 func falseAt(p *core.Prog, at ssa.Instruction) []cmp {
+	return falseAtD(p, at, 0)
+}
+
+func falseAtD(p *core.Prog, at ssa.Instruction, depth int) []cmp {
 	var out []cmp
 	fn := at.Parent()
 	core.AllInstrs(fn, func(in ssa.Instruction) {
@@ -112,6 +117,14 @@ func falseAt(p *core.Prog, at ssa.Instruction) []cmp {
 		for bi, succ := range ifi.Block().Succs {
 			if !core.EdgeDominates(ifi.Block(), succ, at.Block()) {
 				continue
+			}
+			// the condition is a materialised `a && b` / `(x, ok)` result: a φ of the If's block with constants on
+			// some edges. On this side of the branch only the predecessors whose incoming value agrees are
+			// feasible; if that leaves one, everything known at its end is known here too.
+			if depth < 3 {
+				if pb := feasiblePred(ifi, bi == 0); pb != nil && len(pb.Instrs) > 0 {
+					out = append(out, falseAtD(p, pb.Instrs[len(pb.Instrs)-1], depth+1)...)
+				}
 			}
 			if bi == 1 { // false edge: cond is false
 				for _, d := range disjuncts(ifi.Cond) {
@@ -302,4 +315,38 @@ func throughReturns(p *core.Prog, v ssa.Value) []retVal {
 		}
 	})
 	return out
+}
+
+// feasiblePred: ifi's condition is (a negation of) a bool φ of ifi's block; given that the branch goes to the
+// `val` side, the single predecessor whose incoming value can be `val` (constant edges that disagree are
+// infeasible). nil if the condition is not such a φ or more than one predecessor remains.
+func feasiblePred(ifi *ssa.If, val bool) *ssa.BasicBlock {
+	v := ifi.Cond
+	for {
+		if u, ok := v.(*ssa.UnOp); ok && u.Op == token.NOT {
+			v = u.X
+			val = !val
+			continue
+		}
+		break
+	}
+	phi, ok := v.(*ssa.Phi)
+	if !ok || phi.Block() != ifi.Block() {
+		return nil
+	}
+	var feas *ssa.BasicBlock
+	n := 0
+	for i, e := range phi.Edges {
+		if k, ok := e.(*ssa.Const); ok && k.Value != nil && k.Value.Kind() == constant.Bool {
+			if constant.BoolVal(k.Value) != val {
+				continue
+			}
+		}
+		n++
+		feas = phi.Block().Preds[i]
+	}
+	if n != 1 {
+		return nil
+	}
+	return feas
 }
